@@ -206,6 +206,34 @@ async def execute(net, hyg, plan):
                 if r3 in (None, "EOF") or r3.code != "257":
                     viol.append({"key": "session-lost-after-425", "msg": f"{where}: PWD -> {r3}"})
             s.peer.cut("fin")
+        elif kind == "rest":
+            # the peer never reads its control connection; commands are sent until the network takes no more and then until
+            # `rest` unsent reply bytes sit in the server's transport; silence.  The session is dropped by its timeouts and
+            # the closed socket must not stay in the peer's hands longer than socket_timeout (small remainders included)
+            s = Session(net, 2121)
+            await s.run([["connect"], ["login"]])
+            s.peer.writer.transport.pause_reading()
+            tr = s.peer.conn.server_side
+            line = ("X" * 60 + "\r\n").encode()
+            sent = 0
+            while tr.get_write_buffer_size() < plan["rest"] and sent < 4000:
+                s.peer.writer.write(line)
+                sent += 1
+                await asyncio.sleep(0.004)
+            rest = tr.get_write_buffer_size()
+            where = f"cfg {cfg} reply flood, peer silent with {rest} unsent reply bytes in the server's transport"
+            t_stall = loop.time()
+            await asyncio.sleep(12.0)
+            mon["linger_bound"] = mon.get("linger_bound", 0) + 1
+            fired = True
+            if cfg["idle"] or cfg["sock"]:
+                # (without idle_timeout a silent session whose reply writer is not blocked is legitimately kept)
+                if cfg["idle"] and tr.close_called_at is None:
+                    viol.append({"key": "not-released:control-rest", "msg": f"{where}: session never dropped"})
+                for leak in w.leaks():
+                    if leak.startswith("lingering-transport"):
+                        viol.append({"key": "socket-held-after-release:control", "msg": f"{where}: {leak}"})
+            s.peer.cut("fin")
         elif kind == "lateconnect":
             # the data connection is made `delay` seconds after the command: inside the configured wait (or any time when
             # the wait is unlimited) the transfer must go through
@@ -360,6 +388,10 @@ def gen_cases(tier, seed):
             for delta in (0.01, 0.5, 2.0):
                 cases.append({"kind": "single", "plan": {"kind": "chatty", "cfg": cfg, "delta": delta, "rounds": 6,
                                                          "cmds": ["PWD", "SYST", "TYPE I", "NOOP", "CWD /dir", "MLST /f.bin"], "seed": seed}})
+    for idle in (None, 4):
+        for sock in (3,):
+            for rest in (1, 500, 3000, 10000, 16384, 16500, 40000):
+                cases.append({"kind": "single", "plan": {"kind": "rest", "cfg": {"idle": idle, "sock": sock, "wft": 1}, "rest": rest, "seed": seed}})
     # wait_future_timeout=None: the wait for the data connection is not limited
     for idle in (None, 4):
         for sock in (None, 3):
